@@ -1,11 +1,18 @@
 #!/bin/bash
-# dev helper: build + run one worker batch: run1.sh PROP COUNT [SEED]
+# dev helper: build + run one worker batch: run1.sh PROP COUNT [SEED]   (REPO=/scratch/copy to build against a patched copy)
 export GOFLAGS=-mod=mod GOPROXY=off GOSUMDB=off GOTOOLCHAIN=local
-cd /verif/sim && go1.26.8 test -c -tags "verif stdjson gjson" -o /verif/bin/sim.dev.test ./worker || exit 2
-cd /verif/.scratch && VSIM_MODE=explore VSIM_PROP=$1 VSIM_SEED=${3:-1} VSIM_COUNT=$2 VSIM_OUT=/verif/.scratch/r.json /verif/bin/sim.dev.test -test.run '^TestSim$' -test.timeout 0 || exit $?
+BIN=/verif/bin/sim.dev${REPO:+.$(basename $REPO)}.test
+MODARG=
+if [ -n "$REPO" ]; then
+  ALT=/verif/.scratch/go.dev.$(basename $REPO).mod
+  sed "s#=> /repo#=> $REPO#" /verif/sim/go.mod > $ALT; cp $REPO/go.sum ${ALT%.mod}.sum; MODARG="-modfile=$ALT"
+fi
+if [ -z "$NOBUILD" ]; then cd /verif/sim && go1.26.8 test -c $MODARG -tags "verif stdjson gjson" -o $BIN ./worker || exit 2; fi
+OUT=/verif/.scratch/r${RTAG}.json
+cd /verif/.scratch && VSIM_MODE=explore VSIM_PROP=$1 VSIM_SEED=${3:-1} VSIM_COUNT=$2 VSIM_OUT=$OUT $BIN -test.run '^TestSim$' -test.timeout 0 || exit $?
 python3 -c "
 import json
-r=json.load(open('/verif/.scratch/r.json'))
+r=json.load(open('$OUT'))
 for k in ['episodes','nontrivial','steps','sim_time_ns','faults','probes','infra','wall_s','leak']: print(k, r[k])
 print('sigs',len(r['sigs']))
 for v in (r.get('violations') or []): print(v['oracle'], v['message'][:${MSGLEN:-700}], len(v['tape']), 'idx', v['episode_index'])
